@@ -160,6 +160,16 @@ def make_auth(rng, style, is_async):
         # payload both reach the handler as None)
         return isinstance(p, dict) and bool(p) and all(
             p.get(k) == v for k, v in cred.items())
+    if style == 'partial_predicate':
+        # what applications write: it indexes the payload, so it raises for
+        # an absent payload, a non-dict, or a dict without the keys
+        def ppred(p):
+            return all(p[k] == v for k, v in cred.items())
+        if is_async and rng.random() < 0.5:
+            async def appred(p):
+                return ppred(p)
+            return appred, ppred, ['async-partial-predicate', cred]
+        return ppred, ppred, ['partial-predicate', cred]
     if style == 'async_predicate' and is_async:
         async def apred(p):
             await asyncio.sleep(0)
@@ -172,7 +182,7 @@ def part_auth(ctx, k):
     rng = ctx.case_rng(k)
     kind = 'sync' if rng.random() < 0.5 else 'async'
     style = rng.choice(['dict', 'dict', 'list', 'list', 'predicate',
-                        'async_predicate', 'false'])
+                        'async_predicate', 'partial_predicate', 'false'])
     mode = rng.choice(['development', 'production'])
     read_only = rng.random() < 0.5
     auth, oracle, desc = make_auth(rng, style, kind == 'async')
@@ -200,7 +210,14 @@ def part_auth(ctx, k):
                           None if payload == '$absent' else payload])
             # absent and falsy payloads reach the handler as None
             seen = None if (payload == '$absent' or not payload) else payload
-            want = bool(oracle(seen))
+            try:
+                want = bool(oracle(seen))
+                raises = False
+            except Exception:
+                # the predicate raises for this payload: not satisfied
+                want = False
+                raises = True
+                ctx.count('auth_predicate_raised')
             frames = res['sent'].get(nT, [])
             ans = [p for p in frames if p['type'] in (R.CONNECT,
                                                       R.CONNECT_ERROR)]
@@ -212,6 +229,11 @@ def part_auth(ctx, k):
                  'expected_accept': want,
                  'answer': [[p['type'], p['nsp'], p['data']] for p in ans],
                  'errors': res.get('errors'), 'exc': res.get('exc')}
+            if raises and not ans:
+                # (the predicate's exception surfaces in the server's log and
+                # the client is left without an answer: not accepted)
+                ans = [{'type': R.CONNECT_ERROR, 'nsp': ADMIN,
+                        'data': '<no answer>'}]
             if len(ans) != 1 or ans[0]['nsp'] != ADMIN:
                 ctx.violation(None, 'admin CONNECT with %s payload got %d '
                               'answers on the admin namespace (expected '
